@@ -85,7 +85,7 @@ func (f *FnVC) specType(env *SEnv, text string) (types.Type, error) {
 		return types.NewSlice(t), nil
 	}
 	if pkgName, name, ok := strings.Cut(text, "."); ok {
-		if p := f.E.findPackage(env.pkg, pkgName); p != nil {
+		if p := f.E.findPackage(env.pkg, pkgName, name); p != nil {
 			if o := p.Scope().Lookup(name); o != nil {
 				return o.Type(), nil
 			}
@@ -269,7 +269,7 @@ func (f *FnVC) specSel(env *SEnv, e *spec.Expr, want types.Type) (Val, error) {
 	// package-qualified name
 	if b := e.Args[0]; b.Op == "id" {
 		if _, isName := env.names[b.Tok]; !isName {
-			if p := f.E.findPackage(env.pkg, b.Tok); p != nil {
+			if p := f.E.findPackage(env.pkg, b.Tok, e.Tok); p != nil {
 				o := p.Scope().Lookup(e.Tok)
 				if o == nil {
 					return Val{}, fmt.Errorf("no %s.%s", b.Tok, e.Tok)
@@ -316,6 +316,10 @@ func (f *FnVC) specField(env *SEnv, x Val, name string) (Val, error) {
 			return f.specField(env, cur, name)
 		}
 		ft := st.Field(idx).Type()
+		if isArray(ft) {
+			// array-typed fields denote their value
+			return f.loadObj(env.cur, f.fa(si.Name, idx, x.T), ft), nil
+		}
 		if isAggregate(ft) {
 			return Val{T: f.fa(si.Name, idx, x.T), Typ: types.NewPointer(ft)}, nil
 		}
@@ -654,7 +658,10 @@ func (f *FnVC) specCall(env *SEnv, e *spec.Expr, want types.Type) (Val, error) {
 		case "res":
 			s, ok := f.sites[args[0].Tok]
 			if !ok {
-				return Val{}, fmt.Errorf("res(%s): no such labelled call site reached before this point", args[0].Tok)
+				s = f.placeholderSite(args[0].Tok)
+			}
+			if s == nil {
+				return Val{}, fmt.Errorf("res(%s): no labelled call site of that name in this function", args[0].Tok)
 			}
 			if len(args) > 1 {
 				i, _ := strconv.Atoi(args[1].Tok)
@@ -667,7 +674,10 @@ func (f *FnVC) specCall(env *SEnv, e *spec.Expr, want types.Type) (Val, error) {
 		case "arg":
 			s, ok := f.sites[args[0].Tok]
 			if !ok {
-				return Val{}, fmt.Errorf("arg(%s): no such labelled call site", args[0].Tok)
+				s = f.placeholderSite(args[0].Tok)
+			}
+			if s == nil {
+				return Val{}, fmt.Errorf("arg(%s): no labelled call site of that name in this function", args[0].Tok)
 			}
 			i, _ := strconv.Atoi(args[1].Tok)
 			if i >= len(s.args) {
@@ -751,6 +761,31 @@ func (f *FnVC) specCall(env *SEnv, e *spec.Expr, want types.Type) (Val, error) {
 				}
 			}
 			return Val{T: boolLit(false), Typ: boolT}, nil
+		case "cast":
+			// cast(x, T): the value of dynamic type T inside interface value x (T a pointer type: its reference)
+			x, err := f.evalSpec(env, args[0], nil)
+			if err != nil {
+				return Val{}, err
+			}
+			tt, err := f.specType(env, strings.ReplaceAll(args[1].String(), " ", ""))
+			if err != nil {
+				return Val{}, err
+			}
+			if x.T.Sort != SIface {
+				return Val{T: x.T, Typ: tt}, nil
+			}
+			if f.TE.Sort(tt) == SRef {
+				return Val{T: app("iref", SRef, x.T), Typ: tt}, nil
+			}
+			name, _ := f.boxFn(tt)
+			return Val{T: app("un"+name, f.TE.Sort(tt), app("iref", SRef, x.T)), Typ: tt}, nil
+		case "ref":
+			// ref(x): the object reference behind a pointer / interface / slice value
+			x, err := f.evalSpec(env, args[0], nil)
+			if err != nil {
+				return Val{}, err
+			}
+			return Val{T: f.refOf(x), Typ: types.Typ[types.UnsafePointer]}, nil
 		case "isnil":
 			x, err := f.evalSpec(env, args[0], nil)
 			if err != nil {
@@ -847,7 +882,7 @@ func (f *FnVC) specCall(env *SEnv, e *spec.Expr, want types.Type) (Val, error) {
 		// pure method call x.M(args) or pkg.F(args)
 		if b := fn.Args[0]; b.Op == "id" {
 			if _, isName := env.names[b.Tok]; !isName {
-				if p := f.E.findPackage(env.pkg, b.Tok); p != nil {
+				if p := f.E.findPackage(env.pkg, b.Tok, fn.Tok); p != nil {
 					o, _ := p.Scope().Lookup(fn.Tok).(*types.Func)
 					if o == nil {
 						return Val{}, fmt.Errorf("no function %s.%s", b.Tok, fn.Tok)
